@@ -13,10 +13,8 @@ its child (`Ctx.out_eq`), so equal child outputs give equal outputs (`ctx_congr`
 operators that do not cut the input (`limit`, `topn`) — bag-equal child outputs give bag-equal
 outputs (`ctx_congr_perm`).
 
-Covered: stacks of `filter`, `proj`, `order`, `limit` (hence `topn = limit ∘ order`).  Not covered:
-a rewritten sub-plan below a join or an aggregation (their congruence needs the two-sided /
-grouped analogue of `Ctx.out_eq`); there the soundness of rewriting in context rests on the
-whole-optimizer differential run.
+Covered here: stacks of `filter`, `proj`, `order`, `limit` (hence `topn = limit ∘ order`).  A rewritten
+sub-plan below a join: `Thm/C01CongrJoin.lean`; below an aggregation: `Thm/C01CongrAgg.lean`.
 -/
 set_option linter.unusedSimpArgs false
 set_option linter.unusedVariables false
